@@ -41,6 +41,9 @@ NPWIN = {"BartlettWindow": np.bartlett, "BlackmanWindow": np.blackman, "HammingW
 
 class Mon:
     def __init__(self, rec):
+        from ..history import ResultHistory
+
+        self.hist = ResultHistory(rec, self.v, keep=4)
         self.rec = rec
         self.case = None
 
@@ -84,6 +87,7 @@ class Mon:
             self.v("%s(%d)[%r] = %r, numpy window / area = %r" % (name, width, i, float(w[i]), float(ref[i])), check="window_shape", cls=name, width=width)
         if width >= 2 and abs(float(w.sum()) - 1.0) > 1.0 / (width - 1):
             self.v("%s(%d) sums to %r" % (name, width, float(w.sum())), check="window_sum", cls=name, width=width)
+        self.hist.observe(c.self, c.result, "%s.get_impulse_response" % name, cls=name, width=width)
 
     # ---- gamma window
     def post_gamma(self, c):
@@ -99,6 +103,7 @@ class Mon:
         if w.shape != (max(width, 0),):
             self.v("GammaWindow(%d) returned shape %r" % (width, w.shape), check="gamma_len", order=g.order, peak=g.peak, width=width)
             return
+        self.hist.observe(g, c.result, "GammaWindow.get_impulse_response", order=g.order, peak=g.peak, width=width)
         if width <= 0:
             return
         if width == 1:
@@ -246,6 +251,12 @@ def run_case(case, rec, mon=None):
         for width in range(case["w0"], case["w1"]):
             for o in objs:
                 o.get_impulse_response(width)
+                if width % 3 == 0:
+                    # the same window object asked again (one window shared by two computers), also after another width
+                    o.get_impulse_response(width)
+                    o.get_impulse_response(max(0, width - 1))
+                    o.get_impulse_response(width)
+                    rec.count("window_objects_asked_again_for_the_same_width")
         rec.sample({"kind": kind, "widths": [case["w0"], case["w1"] - 1], "classes": list(AREA)})
     elif kind == "gamma":
         rng = rng_for(case["seed"], "C20", case["idx"])
@@ -260,7 +271,9 @@ def run_case(case, rec, mon=None):
             g = F.GammaWindow(int(rng.integers(1, 9)), float(rng.uniform(0.1, 0.95)))
             g.get_impulse_response(int(rng.integers(2, 100)))
             g.order, g.peak = int(rng.integers(1, 9)), float(rng.uniform(0.1, 0.95))
-            g.get_impulse_response(int(rng.integers(2, 300)))
+            w2 = int(rng.integers(2, 300))
+            g.get_impulse_response(w2)
+            g.get_impulse_response(w2)  # and the same width again
             rec.count("gamma_windows_reparametrised_after_construction")
         rec.sample({"kind": kind, "last": {"order": order, "peak": peak, "width": width}})
     elif kind == "circshift":
